@@ -509,6 +509,8 @@ func (u *Unit) mapLen(st *State, mt types.Type, m Term) Term {
 		u.s.assumeGlobal(fmt.Sprintf("(forall ((d %s)) (! (>= (%s d) 0) :pattern ((%s d))))", arrSort(ks, SBool), fn, fn))
 		u.s.assumeGlobal(fmt.Sprintf("(= (%s ((as const %s) false)) 0)", fn, arrSort(ks, SBool)))
 		u.s.assumeGlobal(fmt.Sprintf("(forall ((d %s) (k %s)) (! (=> (select d k) (> (%s d) 0)) :pattern ((%s d) (select d k))))", arrSort(ks, SBool), ks, fn, fn))
+		u.s.assumeGlobal(fmt.Sprintf("(forall ((d %s) (k %s)) (! (= (%s (store d k true)) (+ (%s d) (ite (select d k) 0 1))) :pattern ((%s (store d k true)))))", arrSort(ks, SBool), ks, fn, fn, fn))
+		u.s.assumeGlobal(fmt.Sprintf("(forall ((d %s) (k %s)) (! (= (%s (store d k false)) (- (%s d) (ite (select d k) 1 0))) :pattern ((%s (store d k false)))))", arrSort(ks, SBool), ks, fn, fn, fn))
 	}
 	return ite(eq(m, "0"), "0", sx(fn, sx("select", u.heap(st, dn, ds), m)))
 }
